@@ -187,7 +187,8 @@ def main():
     os.makedirs(OUT, exist_ok=True)
     resf = os.path.join(OUT, fam + ".json")
     done = {r["id"]: r for r in (json.load(open(resf)) if os.path.exists(resf) else [])}
-    todo = [m for m in ms if m["id"] not in done or str(done[m["id"]].get("status", "")).startswith(("error", "undecided"))][:limit]
+    again = ("error", "undecided", "check-broken") + (("survivor",) if "--survivors" in sys.argv else ())      # --survivors: once more, with the current checks
+    todo = [m for m in ms if m["id"] not in done or str(done[m["id"]].get("status", "")).startswith(again)][:limit]
     import random
     random.Random(1).shuffle(todo)
     print("%d mutants, %d to evaluate" % (len(ms), len(todo)))
